@@ -638,6 +638,22 @@ func ParseFile(path string, pkgPath string) (*File, error) {
 					cur.DynCalls = map[string]string{}
 				}
 				cur.DynCalls[parts[0]] = parts[1]
+			case "reenter":
+				i := strings.Index(rest, " modifies ")
+				if i < 0 {
+					return nil, fail(fmt.Errorf("reenter callee[, callee] modifies locations"))
+				}
+				re := &Reenter{Pos: ln.pos}
+				for _, c := range strings.Split(rest[:i], ",") {
+					re.Callees = append(re.Callees, strings.TrimSpace(c))
+				}
+				es, err := parseExprList(rest[i+10:])
+				if err != nil {
+					return nil, fail(err)
+				}
+				re.Mods = es
+				cur.Reenter = append(cur.Reenter, re)
+				curCS = nil
 			case "let":
 				idx := strings.Index(rest, "=")
 				if idx < 0 {
@@ -760,7 +776,7 @@ var keywords = map[string]bool{
 	"spec": true, "ghost": true, "axiom": true, "lemma": true, "event": true, "func": true,
 	"requires": true, "ensures": true, "modifies": true, "pure": true, "noeffect": true, "trusted": true,
 	"let": true, "loop": true, "callsite": true, "assert": true, "cutafter": true, "invariant": true, "typeinv": true, "import": true, "package": true,
-	"noinline": true, "inline": true, "props": true, "fresh": true, "opt": true, "stablegetters": true, "represents": true, "dyncall": true, "silent": true, "assumes": true,
+	"noinline": true, "inline": true, "props": true, "fresh": true, "opt": true, "stablegetters": true, "represents": true, "dyncall": true, "silent": true, "assumes": true, "reenter": true,
 }
 
 func firstWord(s string) string {
